@@ -162,12 +162,13 @@ theorem raw_no_na_after_close (c : Model.Cfg) (pre post : List RawEv) (mac : Byt
   have := C14.no_na_after_close (pre.map (evOf c)) (post.map (evOf c)) mac s os hr
   simpa using this
 
-/-- a forged advertisement is written only to a MAC accepted by a StartHunt, only with the address of a
-    learned router and only once a router was learned – on every raw history -/
+/-- a forged advertisement is written only to a MAC that is in the hunt list at that moment (handler open),
+    only with the address of a learned router and only once a router was learned – on every raw history -/
 theorem raw_na_only_to_hunted_after_router (c : Model.Cfg) (ops : List RawEv) (s : State) (os : List Out)
     (hr : runRaw c {} ops = some (s, os)) (i : Nat) (r : Bytes) (s' : State) (o : Out)
     (hs : step s (.send i r) = some (s', o)) :
-    o = .na (s.loops i).mac r ∧ s.defaultRouter.isSome = true ∧ r ∈ keys s ∧ (s.loops i).mac ∈ s.started :=
+    o = .na (s.loops i).mac r ∧ s.defaultRouter.isSome = true ∧ r ∈ keys s ∧ (s.loops i).mac ∈ s.started ∧
+      (s.loops i).mac ∈ s.hunt ∧ s.closed = false :=
   C14.na_only_to_hunted_after_router _ s os hr i r s' o hs
 
 /-- **A forged advertisement carries only the IPv6 source address of a router-advertisement frame that
